@@ -599,7 +599,8 @@ Definition c15_check (c : c15_case) : issues :=
       let id := match prev with Some p => wrap64 (p + 1) | None => 1 end in
       let rb := unhex recipient in let sb := str_bytes sender in let iqb := unhex iq in
       diff_if (is_hex recipient && is_hex iq) "case well-formed"
-      ++ diff_if (negb ierr) "withdraw error"
+      (* the message server accepts only 20-byte recipients (after the fix of F45, C14) *)
+      ++ diff_if (Bool.eqb ierr (negb (Nat.eqb (List.length rb) 20))) "withdraw error"
       ++ (if ierr then [] else
           let sol := sol_query_data false iid in
           let solh := keccak256 sol in
